@@ -1,0 +1,243 @@
+//! Verification hooks.  Only compiled with `--cfg resolved_verif`.
+//!
+//! Every hook is inert until a harness registers something: with the
+//! cfg on but nothing registered the crate behaves exactly as it does
+//! with the cfg off.
+
+use std::cell::RefCell;
+use std::future::Future;
+use std::net::SocketAddr;
+use std::pin::Pin;
+use std::rc::Rc;
+use std::sync::{Arc, OnceLock, RwLock};
+use std::time::Duration;
+
+use dns_types::protocol::types::DomainName;
+
+/// A virtual clock for `cache.rs`.
+pub mod clock {
+    use super::{Duration, OnceLock, Rc, RefCell};
+
+    thread_local! {
+        static PROVIDER: RefCell<Option<Rc<dyn Fn() -> Duration>>> = const { RefCell::new(None) };
+    }
+
+    static BASE: OnceLock<std::time::Instant> = OnceLock::new();
+
+    /// The instant virtual offsets are relative to.
+    pub fn base() -> std::time::Instant {
+        *BASE.get_or_init(std::time::Instant::now)
+    }
+
+    /// Install (or remove) the provider of the current virtual offset
+    /// for this thread.
+    pub fn set_provider(provider: Option<Rc<dyn Fn() -> Duration>>) {
+        PROVIDER.with(|p| *p.borrow_mut() = provider);
+    }
+
+    /// Offset of an instant from `base()`.
+    pub fn offset_of(instant: std::time::Instant) -> Duration {
+        instant.saturating_duration_since(base())
+    }
+
+    /// Stand-in for `std::time::Instant` in `Instant::now()` calls.
+    pub struct Instant;
+
+    impl Instant {
+        #[allow(clippy::new_ret_no_self)]
+        pub fn now() -> std::time::Instant {
+            let provider = PROVIDER.with(|p| p.borrow().clone());
+            match provider {
+                Some(f) => base() + f(),
+                None => std::time::Instant::now(),
+            }
+        }
+    }
+}
+
+/// Interception of upstream exchanges.
+pub mod transport {
+    use super::{Arc, Future, Pin, RefCell, SocketAddr};
+
+    #[derive(Debug, Copy, Clone, Eq, PartialEq, Ord, PartialOrd, Hash)]
+    pub enum Proto {
+        Udp,
+        Tcp,
+    }
+
+    pub type Reply = Pin<Box<dyn Future<Output = Option<Vec<u8>>> + Send>>;
+
+    pub trait Transport: Send + Sync {
+        /// Perform one exchange: the request as it would be sent (without the
+        /// TCP length prefix), the reply as it would be received (likewise).
+        /// `None` is an I/O error; a future that never completes is silence.
+        fn exchange(&self, proto: Proto, address: SocketAddr, request: &[u8]) -> Reply;
+    }
+
+    thread_local! {
+        static TRANSPORT: RefCell<Option<Arc<dyn Transport>>> = const { RefCell::new(None) };
+    }
+
+    pub fn set(transport: Option<Arc<dyn Transport>>) {
+        TRANSPORT.with(|t| *t.borrow_mut() = transport);
+    }
+
+    pub fn current() -> Option<Arc<dyn Transport>> {
+        TRANSPORT.with(|t| t.borrow().clone())
+    }
+}
+
+/// Scheduling points round the cache mutex.
+pub mod sync {
+    use super::{Rc, RefCell};
+    use std::ops::{Deref, DerefMut};
+    use std::sync::{LockResult, PoisonError};
+
+    pub use std::sync::Arc;
+
+    pub trait Scheduler {
+        /// Called before the real lock is taken; may block / switch threads.
+        fn before_lock(&self, id: usize);
+        /// Called after the real lock has been released.
+        fn after_unlock(&self, id: usize);
+    }
+
+    thread_local! {
+        static SCHEDULER: RefCell<Option<Rc<dyn Scheduler>>> = const { RefCell::new(None) };
+    }
+
+    pub fn set_scheduler(scheduler: Option<Rc<dyn Scheduler>>) {
+        SCHEDULER.with(|s| *s.borrow_mut() = scheduler);
+    }
+
+    fn scheduler() -> Option<Rc<dyn Scheduler>> {
+        SCHEDULER.with(|s| s.borrow().clone())
+    }
+
+    #[derive(Debug, Default)]
+    pub struct Mutex<T> {
+        inner: std::sync::Mutex<T>,
+    }
+
+    pub struct MutexGuard<'a, T> {
+        guard: Option<std::sync::MutexGuard<'a, T>>,
+        id: usize,
+    }
+
+    impl<T> Mutex<T> {
+        pub fn new(value: T) -> Self {
+            Self {
+                inner: std::sync::Mutex::new(value),
+            }
+        }
+
+        #[allow(clippy::missing_errors_doc)]
+        pub fn lock(&self) -> LockResult<MutexGuard<'_, T>> {
+            let id = std::ptr::from_ref(self) as usize;
+            if let Some(s) = scheduler() {
+                s.before_lock(id);
+            }
+            match self.inner.lock() {
+                Ok(guard) => Ok(MutexGuard {
+                    guard: Some(guard),
+                    id,
+                }),
+                Err(poison) => Err(PoisonError::new(MutexGuard {
+                    guard: Some(poison.into_inner()),
+                    id,
+                })),
+            }
+        }
+    }
+
+    impl<T> Deref for MutexGuard<'_, T> {
+        type Target = T;
+
+        fn deref(&self) -> &T {
+            self.guard.as_ref().expect("guard present until drop")
+        }
+    }
+
+    impl<T> DerefMut for MutexGuard<'_, T> {
+        fn deref_mut(&mut self) -> &mut T {
+            self.guard.as_mut().expect("guard present until drop")
+        }
+    }
+
+    impl<T> Drop for MutexGuard<'_, T> {
+        fn drop(&mut self) {
+            drop(self.guard.take());
+            if let Some(s) = scheduler() {
+                s.after_unlock(self.id);
+            }
+        }
+    }
+}
+
+thread_local! {
+    #[allow(clippy::type_complexity)]
+    static ORDER: RefCell<Option<Rc<dyn Fn(&mut Vec<DomainName>)>>> = const { RefCell::new(None) };
+}
+
+/// Install (or remove) the chooser of the order in which candidate
+/// nameservers are tried on this thread.
+pub fn set_candidate_order(chooser: Option<Rc<dyn Fn(&mut Vec<DomainName>)>>) {
+    ORDER.with(|o| *o.borrow_mut() = chooser);
+}
+
+/// Let the harness arrange the candidate nameservers (they are taken
+/// from the end of the vector).  Identity when nothing is installed.
+pub fn order_candidates(candidates: &mut Vec<DomainName>) {
+    let chooser = ORDER.with(|o| o.borrow().clone());
+    if let Some(f) = chooser {
+        f(candidates);
+    }
+}
+
+type Gate = Arc<dyn Fn(&'static str) + Send + Sync>;
+
+static GATE: RwLock<Option<Gate>> = RwLock::new(None);
+
+/// Install (or remove) the process-wide breakpoint callback.
+#[allow(clippy::missing_panics_doc)]
+pub fn set_gate(gate: Option<Gate>) {
+    *GATE.write().expect("gate lock") = gate;
+}
+
+/// A named breakpoint.  No-op unless a callback is installed.
+#[allow(clippy::missing_panics_doc)]
+pub fn gate(name: &'static str) {
+    let gate = GATE.read().expect("gate lock").clone();
+    if let Some(g) = gate {
+        g(name);
+    }
+}
+
+/// Snapshot types for `cache.rs`.
+pub mod snapshot {
+    use super::{DomainName, Duration};
+    use dns_types::protocol::types::{RecordType, RecordTypeWithData};
+
+    /// All instants are offsets from `clock::base()`.
+    #[derive(Debug, Clone, Eq, PartialEq)]
+    pub struct PartitionSnapshot {
+        pub name: DomainName,
+        pub last_read: Duration,
+        pub next_expiry: Duration,
+        pub size: usize,
+        /// Sorted by record type; tuples in stored order.
+        pub records: Vec<(RecordType, Vec<(RecordTypeWithData, Duration)>)>,
+    }
+
+    #[derive(Debug, Clone, Eq, PartialEq)]
+    pub struct CacheSnapshot {
+        /// Sorted by name.
+        pub partitions: Vec<PartitionSnapshot>,
+        /// In pop order (least recently used first).
+        pub access_order: Vec<(DomainName, Duration)>,
+        /// In pop order (soonest to expire first).
+        pub expiry_order: Vec<(DomainName, Duration)>,
+        pub current_size: usize,
+        pub desired_size: usize,
+    }
+}
